@@ -14,8 +14,9 @@ through ``zipfile.ZipFile(<path>)`` -> ``io.open`` and is therefore covered by t
                  "flushed" -> the buffers written so far reach the kernel, then the process dies before the operation
                  "half"    -> (write events) half of the buffer is written and flushed, then the process dies
                               (non-write events: same as "flushed")
-    ioerror_at : event index of a write at which ``OSError(ENOSPC)`` is raised after half of the buffer was written
-                 (a failing disk, not a crash; the job under test decides what to do with it)
+    ioerror_at : event index of a write at which ``OSError(ENOSPC)`` is raised after half of the buffer was written;
+                 every later write/flush on the same file object fails too (the disk stays full until that file is
+                 closed).  A failing disk, not a crash; the job under test decides what to do with it
 
 ``emit(line)`` receives one line per event (``"V <index> <op> <name> <nbytes>"``); it must not buffer.
 Nothing here imports the repository.
@@ -38,6 +39,7 @@ class Injector:
         self.ioerror_at = plan.get("ioerror_at")
         self.n = 0
         self.open_files = []
+        self.full_disk = set()
         self.orig = {}
 
     # ------------------------------------------------------------------------------------------ helpers
@@ -81,7 +83,10 @@ class Injector:
             fobj.write(bytes(buf[:half]))
             fobj.flush()
             self.emit(f"F {idx} {op} ioerror")
+            self.full_disk.add(id(fobj))
             return "ioerror"
+        if fobj is not None and id(fobj) in self.full_disk and op in ("write", "flush"):
+            return "ioerror"            # the disk stays full for this file until it is closed
         return None
 
     # ------------------------------------------------------------------------------------------ patches
@@ -143,7 +148,8 @@ class FileProxy:
         return self._f.write(buf)
 
     def flush(self):
-        self._inj.event("flush", self._path)
+        if self._inj.event("flush", self._path, fobj=self._f) == "ioerror":
+            raise OSError(errno.ENOSPC, "No space left on device (injected)")
         return self._f.flush()
 
     def close(self):
@@ -152,6 +158,7 @@ class FileProxy:
         try:
             return self._f.close()
         finally:
+            self._inj.full_disk.discard(id(self._f))
             if self._f in self._inj.open_files:
                 self._inj.open_files.remove(self._f)
 
